@@ -1,36 +1,33 @@
-"""C14 Built-in pipe handler implements FIFO byte streams (necessary structural conditions).
+"""C14 Built-in pipe handler implements FIFO byte streams (one call's transfer function, decided semantically).
 
-C14.keys         pipe(): the buffer key is the read end, and it is the value recorded for the write end; the two fds
-                 reported to the guest are those two ends; read indexes the buffer with fd for get and insert;
-                 write indexes it with the value loaded from pipes_write_ends[fd]
-C14.split        read delivers buf[..m], keeps buf[m..] with the same m = min(count, len) and returns m;
-                 write appends exactly the bytes read from (buf, count) and returns count
-C14.passthrough  other syscall numbers / unknown descriptors: Unhandled with nothing touched
-Declined: FIFO order over interleavings as such (a property of histories); collisions of the random descriptors.
+The three hook closures are interpreted over an abstract model of the three descriptor maps and of byte vectors
+(seqmodel.py): a map entry's final value is whatever the combination of get / get_mut / insert / entry().and_modify()
+.or_insert() / Vec calls leaves there, as a byte-sequence expression in normal form (segments of the entry buffer B and of
+the guest bytes G with affine bounds). The requested count is compared with the available length by class
+(count < len, count = len, count > len: a comparison oracle), so neither the spelling of the map / Vec calls nor the
+spelling of min() matters.
+
+C14.keys         pipe(): read_ends[R] = W, write_ends[W] = R, contents[R] = empty, R and W distinct draws, the guest
+                 receives [R, W]; read uses contents[RDI]; write uses contents[write_ends[RDI]]; no other entry changes
+C14.split        read: delivered = B[..m], contents[fd] := B[m..], RAX = m with m = min(count, len B) (per class);
+                 write: contents[key] := B ++ G (or G when the entry is missing), G = guest bytes (RSI, RDX), RAX = RDX
+C14.passthrough  other syscall numbers / descriptors that are not pipe ends: Unhandled with nothing touched
+Declined: FIFO order over interleavings as such (a property of histories; it follows from the per-call transfer
+functions by induction, which is not mechanised here); collisions of the random descriptors.
 """
 from .. import absint as A
-from .. import facts as F
 from .. import hutil as U
-from .. import prims as P
-from .rules_common import is_err
+from .. import seqmodel as SQ
 from . import C13
 
 AXE = "axecutor::Axecutor"
+MAPS = ("pipes_read_ends", "pipes_write_ends", "pipe_contents")
+CLASSES = (("count<len", 0, 1), ("count=len", 1, 1), ("count>len", 2, 1))
 
 
-def fieldnames(loc):
-    return [p[2] for p in loc[1] if isinstance(p, tuple) and p[0] == "f"]
-
-
-def strip_all(t):
-    while t[0] in ("w", "cast", "deref"):
-        t = t[1]
-    return t
-
-
-def map_calls(o, meth, field):
-    return [e for e in o.path.events if e[0] in ("mutcall", "refcall") and e[1].rsplit("::", 1)[1] == meth
-            and fieldnames(e[2])[-1:] == [field]]
+def reg_leaf(facts, t, name):
+    t = U.strip(t)
+    return t[0] == "reg" and U.reg_name(facts, t[2]) == name
 
 
 def run(ctx):
@@ -42,209 +39,240 @@ def run(ctx):
         return
     cl = [c for c in facts.closures_of(reg["path"]) if c.count("{closure#") == 1]
     ck.floor("pipe hook closures", len(cl), 3)
-    extra_calls = []
-
-    def extra(I, path, frame, t, name, args):
-        short = name.rsplit("::", 1)[1] if "::" in name else name
-        if short in ("and_modify", "or_insert", "or_insert_with", "extend_from_slice", "or_default"):
-            path.events.append(("call", short, tuple(I.norm_arg(path, a) for a in args)))
-        return None
-    runs = {}
+    # which closure serves which syscall number: one plain run each
+    by_num = {}
     for c in cl:
-        outs, I, b = C13.run_hook_closure(ctx, c, extra)
-        rets = [o for o in outs if o.kind == "return"]
-        sels = {C13.rax_selector(facts, o)[0] for o in rets if C13.rax_selector(facts, o)}
-        for s in sels:
-            runs[s] = (outs, I, b)
+        sm = SQ.SeqMapPrims(facts, MAPS, ("pipe_contents",))
+        outs, I, b = C13.run_hook_closure(ctx, c, sm.intercept)
+        for o in outs:
+            if o.kind == "return":
+                s = C13.rax_selector(facts, o)
+                if s:
+                    by_num[s[0]] = c
     want = {22: "pipe", 0: "read", 1: "write"}
     for num, nm in want.items():
-        if num not in runs:
+        if num not in by_num:
             ck.violation("C14.keys", "syscall=%s" % nm, "no hook selects RAX == %d" % num)
-    for num, (outs, I, b) in sorted(runs.items()):
-        nm = want.get(num)
-        if nm is None:
+    decided = 0
+    for num, nm in sorted(want.items()):
+        c = by_num.get(num)
+        if c is None:
             continue
-        where = "%s:%d (%s hook)" % (b["span"][0], b["span"][1], nm)
-        rets = [o for o in outs if o.kind == "return"]
-        # ---- passthrough
-        pbad = None
-        for o in rets:
-            sel = C13.rax_selector(facts, o)
-            res = C13.hook_result(o)
-            eff = [e for e in o.path.events if e[0] in ("reg_write", "mem_write", "mutcall", "store")]
-            if sel and not sel[1]:
-                if res != "unhandled" or eff:
-                    pbad = pbad or "other syscall numbers are %s" % ("modified" if eff else "not left Unhandled")
-            elif res == "unhandled":
-                if eff:
-                    pbad = pbad or "Unhandled returned after state was modified"
-        if pbad:
-            ck.violation("C14.passthrough", "syscall=%s" % nm, pbad, where=where,
-                         what="read/write on non-pipe descriptors must be left for other hooks")
-        else:
-            ck.ok("C14.passthrough", "syscall=%s" % nm)
-        handled = [o for o in rets if C13.hook_result(o) == "handled"]
-        if not handled:
-            ck.violation("C14.keys", "syscall=%s" % nm, "no Handled path", where=where)
-            continue
-        if nm == "pipe":
-            pipe_create(ctx, handled, where)
-        elif nm == "read":
-            pipe_read(ctx, handled, rets, where)
-        else:
-            pipe_write(ctx, handled, rets, where)
-
-
-def pipe_create(ctx, handled, where):
-    ck, facts = ctx.check, ctx.facts
-    bad = None
-    for o in handled:
-        r = map_calls(o, "insert", "pipes_read_ends")
-        w = map_calls(o, "insert", "pipes_write_ends")
-        c = map_calls(o, "insert", "pipe_contents")
-        if len(r) != 1 or len(w) != 1 or len(c) != 1:
-            bad = bad or "inserts: read_ends=%d write_ends=%d contents=%d" % (len(r), len(w), len(c))
-            continue
-        R, Wt = r[0][3][1], r[0][3][2]
-        Wt2, R2 = w[0][3][1], w[0][3][2]
-        K = c[0][3][1]
-        if R == Wt:
-            bad = bad or "both ends are the same value"
-        if not (Wt == Wt2 and R == R2):
-            bad = bad or "the two end maps are not inverse of each other"
-        if K != R2:
-            bad = bad or "buffer keyed by %s, but the write end maps to %s" % (A.show(K), A.show(R2))
-        mw = [e for e in o.path.events if e[0] == "mem_write" and e[1] == 64]
-        vals = [e[3] for e in mw]
-        if len(mw) != 2 or vals[0] != R or vals[1] != Wt:
-            bad = bad or "guest receives %s, expected [read end, write end]" % [A.show(v)[:40] for v in vals]
-        else:
-            a0, a1 = mw[0][2], mw[1][2]
-            if not U.affine_eq(a1, ("bin", "Add", a0, A.INT(8, 64), 64)):
-                bad = bad or "second descriptor not stored at fd_ptr + 8"
-        # a fresh buffer
-        newv = c[0][3][2]
-        if not (newv[0] == "ret" and newv[1].endswith("::new")):
-            bad = bad or "new pipe does not start empty"
-    if bad:
-        ck.violation("C14.keys", "syscall=pipe", bad, where=where, what="pipe ends and buffer key are inconsistent")
-    else:
-        ck.ok("C14.keys", "syscall=pipe")
-
-
-def pipe_read(ctx, handled, rets, where):
-    ck, facts = ctx.check, ctx.facts
-    kbad = sbad = None
-    for o in handled:
-        g = map_calls(o, "get", "pipe_contents")
-        ins = map_calls(o, "insert", "pipe_contents")
-        if len(g) != 1 or len(ins) != 1:
-            kbad = kbad or "get=%d insert=%d on the buffer map" % (len(g), len(ins))
-            continue
-        fd = strip_all(g[0][3][1])
-        if not (fd[0] == "reg" and U.reg_name(facts, fd[2]) == "RDI"):
-            kbad = kbad or "buffer looked up with %s, not the descriptor in RDI" % A.show(fd)
-        if strip_all(ins[0][3][1]) != fd:
-            kbad = kbad or "remaining bytes stored under %s, looked up under %s" % (A.show(ins[0][3][1]), A.show(fd))
-        # split
-        mw = [e for e in o.path.events if e[0] == "mem_write" and e[1] == "bytes"]
-        rax = [e for e in o.path.events if e[0] == "reg_write" and U.reg_name(facts, e[2]) == "RAX"]
-        if len(mw) != 1 or len(rax) != 1:
-            sbad = sbad or "guest writes=%d RAX writes=%d" % (len(mw), len(rax))
-            continue
-        deliv = strip_all(mw[0][3])
-        kept = strip_all(ins[0][3][2])
-        if kept[0] == "ret" and kept[1].endswith("::to_vec"):
-            kept = strip_all(kept[2][0])
-        ok_shape = deliv[0] == "ret" and "::index" in deliv[1] and kept[0] == "ret" and "::index" in kept[1]
-        if not ok_shape:
-            sbad = sbad or "delivered/kept bytes are not slices of the buffer"
-            continue
-        X1, r1 = strip_all(deliv[2][0]), deliv[2][1]
-        X2, r2 = strip_all(kept[2][0]), kept[2][1]
-        if X1 != X2:
-            sbad = sbad or "delivered and kept bytes come from different buffers"
-        if not (r1[0] == "agg" and r1[1].endswith("RangeTo") and r2[0] == "agg" and r2[1].endswith("RangeFrom")):
-            sbad = sbad or "split is not buf[..m] / buf[m..] (%s / %s)" % (r1[1] if r1[0] == "agg" else r1[0], r2[1] if r2[0] == "agg" else r2[0])
-            continue
-        m1, m2 = strip_all(r1[3][0]), strip_all(r2[3][0])
-        m = strip_all(rax[0][3])
-        if m1 != m2:
-            sbad = sbad or "delivers up to %s but keeps from %s" % (A.show(m1)[:60], A.show(m2)[:60])
-        if m != m1:
-            sbad = sbad or "returns %s, delivered %s bytes" % (A.show(m)[:60], A.show(m1)[:60])
-        # m = min(count(RDX), len(buffer))
-        if not (m1[0] == "ret" and m1[1] == "min"):
-            sbad = sbad or "byte count is not min(requested, available)"
-        else:
-            a, b = strip_all(m1[2][0]), strip_all(m1[2][1])
-            names = set()
-            for x in (a, b):
-                if x[0] == "reg":
-                    names.add(U.reg_name(facts, x[2]))
-                elif x[0] == "len":
-                    names.add("len")
-            if names != {"RDX", "len"}:
-                sbad = sbad or "min over %s, expected (RDX, available length)" % sorted(str(n) for n in names)
-        # buffer written to the guest at RSI
-        dst = strip_all(mw[0][2])
-        if not (dst[0] == "reg" and U.reg_name(facts, dst[2]) == "RSI"):
-            sbad = sbad or "bytes delivered to %s, not the buffer in RSI" % A.show(dst)
-    for rule, bad in (("C14.keys", kbad), ("C14.split", sbad)):
-        if bad:
-            ck.violation(rule, "syscall=read", bad, where=where, what="pipe read loses, duplicates or misroutes bytes")
-        else:
-            ck.ok(rule, "syscall=read")
-
-
-def pipe_write(ctx, handled, rets, where):
-    ck, facts = ctx.check, ctx.facts
-    kbad = sbad = None
-    for o in handled:
-        g = map_calls(o, "get", "pipes_write_ends")
-        en = map_calls(o, "entry", "pipe_contents")
-        if len(g) != 1 or len(en) != 1:
-            kbad = kbad or "get(write_ends)=%d entry(contents)=%d" % (len(g), len(en))
-            continue
-        fd = strip_all(g[0][3][1])
-        if not (fd[0] == "reg" and U.reg_name(facts, fd[2]) == "RDI"):
-            kbad = kbad or "write end looked up with %s, not RDI" % A.show(fd)
-        key = strip_all(en[0][3][1])
-        # key must be the payload of get(pipes_write_ends, fd)
-        okk = key[0] == "vfield" and key[1][0] == "ret" and key[1][1].endswith("::get") and "pipes_write_ends" in repr(key[1][2][0])
-        if not okk:
-            kbad = kbad or "buffer keyed by %s, expected the read end recorded for this write end" % A.show(key)[:80]
-        rd = [e for e in o.path.events if e[0] == "mem_read" and e[1] == "bytes"]
-        rax = [e for e in o.path.events if e[0] == "reg_write" and U.reg_name(facts, e[2]) == "RAX"]
-        if len(rd) != 1 or len(rax) != 1:
-            sbad = sbad or "guest reads=%d RAX writes=%d" % (len(rd), len(rax))
-            continue
-        src, cnt = strip_all(rd[0][2]), strip_all(rd[0][3])
-        if not (src[0] == "reg" and U.reg_name(facts, src[2]) == "RSI" and cnt[0] == "reg" and U.reg_name(facts, cnt[2]) == "RDX"):
-            sbad = sbad or "reads (%s, %s), expected (RSI, RDX)" % (A.show(src), A.show(cnt))
-        if strip_all(rax[0][3]) != cnt:
-            sbad = sbad or "returns %s, wrote %s bytes" % (A.show(rax[0][3]), A.show(cnt))
-        calls = {e[1]: e for e in o.path.events if e[0] == "call"}
-        if "and_modify" not in calls or not ("or_insert" in calls or "or_insert_with" in calls):
-            sbad = sbad or "buffer update is not entry().and_modify(append).or_insert(bytes)"
-        else:
-            oi = calls.get("or_insert")
-            if oi is not None and not (strip_all(oi[2][1])[0] == "membytes"):
-                sbad = sbad or "or_insert stores %s, not the bytes read" % A.show(oi[2][1])[:60]
-    # the append closure
-    reg = facts.method(AXE, "register_pipe")
-    inner = [c for c in facts.closures_of(reg["path"]) if c.count("{closure#") == 2]
-    appended = False
-    for c in inner:
         b = facts.bodies[c]
-        for blk in b["blocks"]:
-            t = blk["term"]
-            if t["k"] == "call" and F.callee_name(t).endswith("::extend_from_slice"):
-                appended = True
-    if not appended:
-        sbad = sbad or "and_modify closure does not append (extend_from_slice)"
-    for rule, bad in (("C14.keys", kbad), ("C14.split", sbad)):
-        if bad:
-            ck.violation(rule, "syscall=write", bad, where=where, what="pipe write loses, duplicates or misroutes bytes")
-        else:
-            ck.ok(rule, "syscall=write")
+        where = "%s:%d (%s hook)" % (b["span"][0], b["span"][1], nm)
+        kbad = sbad = pbad = None
+        und = None
+        for cname, crank, lrank in (CLASSES if nm == "read" else (("any", None, None),)):
+            sm = SQ.SeqMapPrims(facts, MAPS, ("pipe_contents",))
+
+            def oracle(path, op, x, y, crank=crank, lrank=lrank):
+                if crank is None:
+                    return None
+
+                def rank(t):
+                    t = U.strip(t)
+                    if reg_leaf(facts, t, "RDX"):
+                        return crank
+                    if t[0] == "len" and U.strip(t[1])[0] == "sqatom":
+                        return lrank
+                    return None
+                rx, ry = rank(x), rank(y)
+                if rx is None or ry is None:
+                    return None
+                return int({"Eq": rx == ry, "Ne": rx != ry, "Lt": rx < ry, "Le": rx <= ry, "Gt": rx > ry, "Ge": rx >= ry}[op])
+            outs, I, _ = C13.run_hook_closure(ctx, c, sm.intercept, oracle)
+            rets = [o for o in outs if o.kind == "return"]
+            for o in rets:
+                sel = C13.rax_selector(facts, o)
+                res = C13.hook_result(o)
+                eff = effects(o)
+                if sel and not sel[1]:
+                    if res != "unhandled" or eff:
+                        pbad = pbad or "other syscall numbers are %s" % ("modified" if eff else "not left Unhandled")
+                    continue
+                if res == "unhandled":
+                    if eff:
+                        pbad = pbad or "Unhandled returned after state was modified"
+                    continue
+                if res != "handled":
+                    continue
+                if sm.unmodelled:
+                    und = und or "map/vector call outside the model: %s" % sm.unmodelled[0]
+                    continue
+                decided += 1
+                if nm == "pipe":
+                    kbad = kbad or pipe_create(ctx, o)
+                elif nm == "read":
+                    k2, s2, p2 = pipe_read(ctx, o, cname)
+                    kbad, sbad, pbad = kbad or k2, sbad or s2, pbad or p2
+                else:
+                    k2, s2, p2 = pipe_write(ctx, o)
+                    kbad, sbad, pbad = kbad or k2, sbad or s2, pbad or p2
+            if not any(C13.hook_result(o) == "handled" for o in rets):
+                kbad = kbad or "no Handled path (%s)" % cname
+        inst = "syscall=%s" % nm
+        if und:
+            ck.undecided_("C14", inst, und)
+        for rule, bad in (("C14.keys", kbad), ("C14.split", sbad if nm != "pipe" else None), ("C14.passthrough", pbad)):
+            if rule == "C14.split" and nm == "pipe":
+                continue
+            if bad:
+                ck.violation(rule, inst, bad, where=where, what="pipe %s loses, duplicates or misroutes bytes" % nm
+                             if rule != "C14.passthrough" else "read/write on non-pipe descriptors must be left for other hooks")
+            else:
+                ck.ok(rule, inst)
+    ck.floor("Handled paths decided by the sequence model", decided, 6)
+    ck.sample({"rule": "C14", "handled_paths_decided": decided, "classes": [c[0] for c in CLASSES],
+               "model": "maps " + ", ".join(MAPS) + "; byte vectors as segment lists with affine bounds"})
+
+
+def effects(o):
+    return [e for e in o.path.events if e[0] in ("reg_write", "mem_write", "mutcall", "store") or
+            (e[0] == "map" and e[1] in ("set", "remove"))]
+
+
+def roots(o, M):
+    """final state of map M on this path: {key term: value}"""
+    out = {}
+    for r, v in o.path.store.items():
+        if r[0] == "L" and isinstance(r[1], tuple) and r[1] and r[1][0] == "mapent" and r[1][1] == M:
+            out[r[1][2]] = v
+    return out
+
+
+def changed_keys(o, M):
+    return {e[3] for e in o.path.events if e[0] == "map" and e[1] in ("set", "remove") and e[2] == M}
+
+
+def pipe_create(ctx, o):
+    facts = ctx.facts
+    r, w, c = roots(o, "pipes_read_ends"), roots(o, "pipes_write_ends"), roots(o, "pipe_contents")
+    rs, ws, cs = changed_keys(o, "pipes_read_ends"), changed_keys(o, "pipes_write_ends"), changed_keys(o, "pipe_contents")
+    if len(rs) != 1 or len(ws) != 1 or len(cs) != 1:
+        return "entries written: read_ends=%d write_ends=%d contents=%d, expected one each" % (len(rs), len(ws), len(cs))
+    R, Wt, K = list(rs)[0], list(ws)[0], list(cs)[0]
+    if R == Wt:
+        return "both ends are the same value"
+    if U.strip(r[R]) != Wt or U.strip(w[Wt]) != R:
+        return "the two end maps are not inverse of each other"
+    if K != R:
+        return "buffer keyed by %s, but the write end maps to %s" % (A.show(K)[:40], A.show(R)[:40])
+    if SQ.normal_form(c[K]) != []:
+        return "a new pipe does not start empty"
+    if not any(e[0] == "nondet" for e in o.path.events):
+        return "descriptor numbers are not fresh draws"
+    mw = [e for e in o.path.events if e[0] == "mem_write" and e[1] == 64]
+    vals = [U.strip(e[3]) for e in mw]
+    if len(mw) != 2 or vals[0] != R or vals[1] != Wt:
+        return "guest receives %s, expected [read end, write end]" % [A.show(v)[:40] for v in vals]
+    if not U.affine_eq(mw[1][2], ("bin", "Add", mw[0][2], A.INT(8, 64), 64)):
+        return "second descriptor not stored at fd_ptr + 8"
+    if not reg_leaf(facts, mw[0][2], "RDI"):
+        return "descriptors stored at %s, not at the pointer in RDI" % A.show(mw[0][2])[:40]
+    return None
+
+
+def leaf_of(facts, o, name):
+    for e in o.path.events:
+        if e[0] == "reg_read" and U.reg_name(facts, e[2]) == name:
+            return ("reg", 64, e[2], 0)
+    return None
+
+
+def pipe_read(ctx, o, cname):
+    facts = ctx.facts
+    kbad = sbad = pbad = None
+    fd, cnt = leaf_of(facts, o, "RDI"), leaf_of(facts, o, "RDX")
+    if fd is None or cnt is None:
+        return "the descriptor / count registers are not read", None, None
+    touched = {e[3] for e in o.path.events if e[0] == "map" and e[2] == "pipe_contents"}
+    if touched != {fd}:
+        kbad = "buffer entries used: %s, expected only contents[RDI]" % sorted(A.show(k)[:40] for k in touched)
+        return kbad, None, None
+    for M in ("pipes_read_ends", "pipes_write_ends"):
+        if changed_keys(o, M):
+            kbad = kbad or "read changes %s" % M
+    if o.path.tags.get(("pres", "pipe_contents", fd)) is not True or \
+            not any(e[0] == "map" and e[1] == "entry-state" and e[4] for e in o.path.events):
+        pbad = "Handled although RDI has no pipe buffer"
+        return kbad, None, pbad
+    B = ("sqatom", ("pipe_contents", fd))
+    LENB = A.LEN(B)
+    sub = {}
+    if cname == "count=len":
+        sub = {cnt: LENB}
+    m = A.W(cnt, 64) if cname == "count<len" else A.W(LENB, 64)
+    final = roots(o, "pipe_contents").get(fd)
+    mw = [e for e in o.path.events if e[0] == "mem_write" and e[1] == "bytes"]
+    rax = [e for e in o.path.events if e[0] == "reg_write" and U.reg_name(facts, e[2]) == "RAX"]
+    if len(mw) != 1 or len(rax) != 1:
+        return kbad, "guest writes=%d RAX writes=%d" % (len(mw), len(rax)), pbad
+    if not reg_leaf(facts, mw[0][2], "RSI"):
+        sbad = sbad or "bytes delivered to %s, not to the buffer in RSI" % A.show(mw[0][2])[:40]
+    want_d = SQ.normal_form(SQ.mk_slice(B, None, m), sub)
+    want_k = SQ.normal_form(SQ.mk_slice(B, m, None), sub)
+    got_d = SQ.normal_form(mw[0][3], sub) if SQ.is_seq(mw[0][3]) else None
+    got_k = SQ.normal_form(final, sub) if final is not None and SQ.is_seq(final) else None
+    if got_d != want_d:
+        sbad = sbad or "%s: delivers %s, expected %s" % (cname, SQ.show_nf(got_d), SQ.show_nf(want_d))
+    if got_k != want_k:
+        sbad = sbad or "%s: keeps %s, expected %s" % (cname, SQ.show_nf(got_k), SQ.show_nf(want_k))
+    if not U.affine_eq(SQ.subst(rax[0][3], sub), SQ.subst(m, sub)):
+        sbad = sbad or "%s: returns %s, expected %s" % (cname, A.show(U.strip(rax[0][3]))[:40], A.show(U.strip(m))[:40])
+    return kbad, sbad, pbad
+
+
+def pipe_write(ctx, o):
+    facts = ctx.facts
+    kbad = sbad = pbad = None
+    fd, cnt, buf = leaf_of(facts, o, "RDI"), leaf_of(facts, o, "RDX"), leaf_of(facts, o, "RSI")
+    if fd is None or cnt is None or buf is None:
+        return "the descriptor / buffer / count registers are not read", None, None
+    if changed_keys(o, "pipes_read_ends") or changed_keys(o, "pipes_write_ends"):
+        kbad = "write changes the descriptor maps"
+    if o.path.tags.get(("pres", "pipes_write_ends", fd)) is not True:
+        return kbad, None, "Handled although RDI is not a write end"
+    key = ("mapval", "pipes_write_ends", fd)
+    touched = {e[3] for e in o.path.events if e[0] == "map" and e[2] == "pipe_contents"}
+    if touched != {key}:
+        kbad = kbad or "buffer entries used: %s, expected only contents[write_ends[RDI]]" % sorted(A.show(k)[:50] for k in touched)
+        return kbad, None, pbad
+    rd = [e for e in o.path.events if e[0] == "mem_read" and e[1] == "bytes"]
+    rax = [e for e in o.path.events if e[0] == "reg_write" and U.reg_name(facts, e[2]) == "RAX"]
+    if len(rd) != 1 or len(rax) != 1:
+        return kbad, "guest reads=%d RAX writes=%d" % (len(rd), len(rax)), pbad
+    if not (reg_leaf(facts, rd[0][2], "RSI") and reg_leaf(facts, rd[0][3], "RDX")):
+        sbad = sbad or "reads (%s, %s), expected (RSI, RDX)" % (A.show(rd[0][2])[:30], A.show(rd[0][3])[:30])
+    if not U.affine_eq(rax[0][3], A.W(cnt, 64)):
+        sbad = sbad or "returns %s, wrote RDX bytes" % A.show(U.strip(rax[0][3]))[:40]
+    G = [x for x in SQ_atoms(o) if x[0] == "membytes"]
+    if len(G) != 1:
+        return kbad, sbad or "guest byte strings read: %d" % len(G), pbad
+    B = ("sqatom", ("pipe_contents", key))
+    was = any(e[0] == "map" and e[1] == "entry-state" and e[2] == "pipe_contents" and e[4] for e in o.path.events)
+    want = SQ.normal_form(("sqcat", B, G[0])) if was else SQ.normal_form(G[0])
+    final = roots(o, "pipe_contents").get(key)
+    got = SQ.normal_form(final) if final is not None and SQ.is_seq(final) else None
+    if got != want:
+        sbad = sbad or "buffer %s: becomes %s, expected %s" % ("present" if was else "missing", SQ.show_nf(got), SQ.show_nf(want))
+    return kbad, sbad, pbad
+
+
+def SQ_atoms(o):
+    out = []
+    for e in o.path.events:
+        if e[0] == "mem_read" and e[1] == "bytes":
+            out.append(("membytes", e[2], e[3], 0))
+    # the value term carries the memory version; recover it from the store if possible
+    res = []
+    for r, v in o.path.store.items():
+        s = SQ.strip(v) if isinstance(v, tuple) and v else v
+        stack = [s]
+        while stack:
+            x = stack.pop()
+            if isinstance(x, tuple) and x:
+                if x[0] == "membytes" and x not in res:
+                    res.append(x)
+                else:
+                    stack.extend(y for y in x if isinstance(y, tuple))
+    return res or out
